@@ -2,6 +2,8 @@
 Nothing here uses the Lean model or the library's arithmetic helpers."""
 from __future__ import annotations
 
+import copy
+import json
 import math
 import re
 
@@ -53,9 +55,34 @@ def kept_ops(mi, mo, si):
     return kept, inserted
 
 
+_FRESH = {}
+
+
+def reset_fresh():
+    _FRESH.clear()
+
+
+def resolve(q, op_key, scope):
+    """(algorithm, config) the EXPORTED recipe of `q` selects for (operator, scope), resolved by a fresh RecipeManager
+    that loads that recipe — not by q's own manager, whose caches or partial updates are part of what is being checked
+    (on the unchanged code both agree: C12.reload_reachable / C14)"""
+    from ai_edge_quantizer import recipe_manager
+    rec = q.get_quantization_recipe()
+    key = json.dumps(rec, sort_keys=True, default=str)
+    ent = _FRESH.get(id(q))
+    if ent is None or ent[0] != key:
+        if len(_FRESH) > 64:
+            _FRESH.clear()
+        rm = recipe_manager.RecipeManager()
+        rm.load_quantization_recipe(copy.deepcopy(rec))
+        ent = (key, rm)
+        _FRESH[id(q)] = ent
+    return ent[1].get_quantization_configs(op_key, scope)
+
+
 def mode_of(q, op_key, scope):
-    """resolved execution mode of an op through the real RecipeManager"""
-    alg, cfg = q._recipe_manager.get_quantization_configs(op_key, scope)
+    """resolved execution mode of an op (fresh resolution of the exported recipe)"""
+    alg, cfg = resolve(q, op_key, scope)
     alg = str(getattr(alg, "value", alg))
     if alg == "no_quantize":
         return "none", cfg
